@@ -175,7 +175,7 @@ def ops(case):
         st = case["layout"]["P"] * case["layout"]["k"] * case["dt"]
         head = (
             f"c06.kymo [{';'.join(','.join(f'{v}:{a}:{b}' for v, a, b in row) for row in img)}] "
-            f"{case['dt']} {enc_rat(px)} 0 {enc_rat(px)} {lt}/1 {st}/1"
+            f"{case['dt']} {enc_rat(px)} 0 {enc_rat(px)} {lt}/1 {st}/1 {case['layout']['k'] * case['dt']}"
         )
         return [head + "".join(" " + kop_token(o) for o in case["program"])]
     frames = scan_reference(case)
@@ -257,10 +257,14 @@ def show_kymo(k):
         rs = "undefined"
     unit = {"um": 0, "kbp": 1, "pixel": 2}[k._calibration.unit]
     pxum = k.pixelsize_um[0]
+    try:
+        pt = enc_rat(float(k.pixel_time_seconds))
+    except (NotImplementedError, IndexError) as e:
+        pt = type(e).__name__
     return (
         f"view img=[{rows}] ranges={rs} px={enc_rat(float(k.pixelsize[0]))} unit={unit} "
         f"pxum={'N' if pxum is None else enc_rat(float(pxum))} linetime={enc_rat(float(k.line_time_seconds))} "
-        f"ppl={int(k.pixels_per_line)} offset={enc_rat(float(k._position_offset))} absent={absent_shape(k.get_image('green'))}"
+        f"ppl={int(k.pixels_per_line)} offset={enc_rat(float(k._position_offset))} absent={absent_shape(k.get_image('green'))} pt={pt}"
     )
 
 
@@ -294,7 +298,15 @@ def impl(case):
     try:
         with bc.quiet():
             obj = build(case)
+            show0 = show_kymo if case["kind"] == "kymo" else show_scan
             for op in case["program"]:
+                if case.get("ask_first", True):
+                    # the source is asked everything before something is derived from it: what it has memoised must
+                    # not travel into the derived object
+                    try:
+                        show0(obj)
+                    except Exception:
+                        pass
                 obj = apply_kop(obj, op) if case["kind"] == "kymo" else apply_sop(obj, op)
                 if not obj:
                     break
@@ -326,7 +338,7 @@ def agree(case, i, ia, ma):
         return False
     for k in fi:
         if k == "pt":
-            if fi[k] == "U" or fm[k] == "U":
+            if not fi[k][0].isdigit() and fi[k][0] != "-" or not fm[k][0].isdigit() and fm[k][0] != "-":
                 if fi[k] != fm[k]:
                     return False
                 continue
@@ -441,6 +453,27 @@ def oracle(case, ia):
             wr = "[" + ",".join(f"{a}:{b}" for a, b in cur_ranges()) + "]"
             if f["ranges"] != wr:
                 return f"line ranges {f['ranges'][:200]} but the selected lines/pixels span {wr[:200]}"
+        # pixel time: that of the source times the position binning (every pixel of the generated info waves has the
+        # same number of samples); gone with the per-pixel timestamps after binning in time; a processed kymograph
+        # with a single pixel row cannot report one
+        pf_total = 1
+        for o in case["program"]:
+            if o[0] in ("down", "downr"):
+                pf_total *= o[2] if o[0] == "down" else o[3]
+        if tf_total > 1:
+            want_pt = "NotImplementedError"
+        elif processed and ref.shape[0] < 2:
+            want_pt = "IndexError"
+        else:
+            want_pt = case["layout"]["k"] * case["dt"] * pf_total
+        got_pt = f["pt"]
+        if not isinstance(want_pt, str) and processed and tf_total == 1 and (tmn[0, 0] <= 0 or tmn[1, 0] <= 0):
+            pass  # zero-padded pixels of an unfinished line carry no time: not judged
+        elif isinstance(want_pt, str):
+            if got_pt != want_pt:
+                return f"pixel_time_seconds gave {got_pt}, expected {want_pt} for program {case['program']}"
+        elif not (got_pt[0].isdigit() and abs(Fraction(got_pt) * 10**9 - want_pt) <= Fraction(1, 10**9) * want_pt):
+            return f"pixel_time_seconds {got_pt} s but the source's pixels are {case['layout']['k'] * case['dt']} ns long and {pf_total} of them were binned"
         return None
     # scan
     frames = scan_reference(case)
